@@ -7,10 +7,11 @@ back-patches **absolute** jump targets through a stack of pending blocks
 (`PendingBlock::{Branch, Loop, ScBool, Scope}`), including the constant folding of
 `Expr::as_const` that `compile_expr` tries first.
 
-Fragment of this stage: every expression form except calls and keyword arguments; statements
+Fragment: every expression form incl. calls with positional and keyword arguments; statements
 `text`, `emit`, `if`, `for` (filter, else, unpacking), `set`, set-block, `with`, filter-block,
-`break`, `continue`.  Macros, call blocks and calls set the flag `CG.oof` ("outside the modelled
-fragment") — those programs are covered by the render oracle only.
+`break`, `continue`, macros (with the closure analysis of `compiler/meta.rs: find_macro_closure`)
+and call blocks.  What is still outside (method calls `x.f()`, keyword arguments of filters / tests,
+constants outside the value model) sets the flag `CG.oof`.
 
 The output of `compileTemplate` is compared instruction by instruction (jump targets included)
 with the instruction stream of the real `CodeGenerator` on the ASTs of the real parser
@@ -51,6 +52,15 @@ inductive Instr where
   | dupTop
   | discardTop
   | swap
+  -- macros and calls (executed by the extended VM model `MJ.VmM` only)
+  | buildKwargs (n : Nat)
+  | callFunction (name : String) (argc : Nat)
+  | callObject (argc : Nat)
+  | isUndefined
+  | return_
+  | enclose (x : String)
+  | getClosure
+  | buildMacro (name : String) (offset : Nat) (flags : Nat)
   deriving Repr, Inhabited
 
 inductive ScopeKind where | with_ | capture
@@ -284,6 +294,127 @@ mutual
       | f => f
 end
 
+/-! ## `compiler/meta.rs`: the names a macro has to enclose -/
+
+/-- `AssignmentTracker` (without nested tracking): names looked up before being assigned, and the
+stack of assigned-name sets -/
+structure Tracker where
+  out : List String := []
+  assigned : List (List String) := [[]]
+  deriving Inhabited
+
+namespace Tracker
+def isAssigned (t : Tracker) (x : String) : Bool := t.assigned.any (·.contains x)
+def assign (t : Tracker) (x : String) : Tracker :=
+  match t.assigned with
+  | top :: rest => { t with assigned := (x :: top) :: rest }
+  | [] => { t with assigned := [[x]] }
+def push (t : Tracker) : Tracker := { t with assigned := [] :: t.assigned }
+def pop (t : Tracker) : Tracker := { t with assigned := t.assigned.tail }
+/-- a variable lookup: recorded (and from then on treated as known) unless assigned before -/
+def look (t : Tracker) (x : String) : Tracker :=
+  if t.isAssigned x then t else ({ t with out := if t.out.contains x then t.out else t.out ++ [x] }).assign x
+end Tracker
+
+mutual
+  def trackExpr : Expr → Tracker → Tracker
+    | .const _, t => t
+    | .var x, t => t.look x
+    | .unop _ e, t => trackExpr e t
+    | .binop _ l r, t => trackExpr r (trackExpr l t)
+    | .cmp e ops, t => trackChain ops (trackExpr e t)
+    | .ife c a none, t => trackExpr a (trackExpr c t)
+    | .ife c a (some b), t => trackExpr b (trackExpr a (trackExpr c t))
+    | .filter _ e args, t => trackArgs args (trackExpr e t)
+    | .test _ e args, t => trackArgs args (trackExpr e t)
+    | .getattr e _, t => trackExpr e t
+    | .getitem e i, t => trackExpr i (trackExpr e t)
+    | .call f args, t => trackArgs args (trackExpr f t)
+    | .list items, t => trackList items t
+    | .map kvs, t => trackPairs kvs t
+  def trackChain : List (CmpOp × Expr) → Tracker → Tracker
+    | [], t => t
+    | (_, e) :: rest, t => trackChain rest (trackExpr e t)
+  def trackArgs : List (Option String × Expr) → Tracker → Tracker
+    | [], t => t
+    | (_, e) :: rest, t => trackArgs rest (trackExpr e t)
+  def trackList : List Expr → Tracker → Tracker
+    | [], t => t
+    | e :: rest, t => trackList rest (trackExpr e t)
+  def trackPairs : List (Expr × Expr) → Tracker → Tracker
+    | [], t => t
+    | (k, v) :: rest, t => trackPairs rest (trackExpr v (trackExpr k t))
+end
+
+mutual
+  def trackAssign : Target → Tracker → Tracker
+    | .var x, t => t.assign x
+    | .tuple ts, t => trackAssigns ts t
+  def trackAssigns : List Target → Tracker → Tracker
+    | [], t => t
+    | x :: rest, t => trackAssigns rest (trackAssign x t)
+end
+
+def trackFilterApps : List FilterApp → Tracker → Tracker
+  | [], t => t
+  | (_, args) :: rest, t => trackFilterApps rest (trackArgs args t)
+
+/-- the defaults belong to the last parameters; parameters are bound back to front and a default
+is looked at right before its parameter is bound -/
+def trackParams : List String → List Expr → Tracker → Tracker
+  | ps, ds, t =>
+    let n := ps.length - ds.length
+    let withDefault : List (String × Option Expr) :=
+      (ps.zipIdx).map fun (p, i) => (p, if n ≤ i then ds[i - n]? else none)
+    withDefault.reverse.foldl (fun t pd =>
+      let t := match pd.2 with
+        | some d => trackExpr d t
+        | none => t
+      t.assign pd.1) t
+
+mutual
+  /-- `track_walk` -/
+  def trackStmt : Stmt → Tracker → Tracker
+    | .text _, t => t
+    | .emit e, t => trackExpr e t
+    | .ifS c a b, t => (trackBlock b ((trackBlock a (trackExpr c t).push).pop).push).pop
+    | .forS target iter flt body els, t =>
+      let t := trackAssign target (trackExpr iter t.push)
+      let t := match flt with
+        | some f => trackExpr f t
+        | none => t
+      let t := (trackBlock body (t.assign "loop")).pop
+      (trackBlock els t.push).pop
+    | .set target e, t => trackAssign target (trackExpr e t)
+    | .setBlock x fs body, t => (trackFilterApps fs (trackBlock body t.push).pop).assign x
+    | .withS binds body, t => (trackBlock body (trackBinds binds t.push)).pop
+    | .filterBlock fs body, t => trackFilterApps fs (trackBlock body t.push).pop
+    | .macroS name params defaults body _, t =>
+      (trackBlock body (trackParams params defaults (((t.assign name).push).assign "caller"))).pop
+    | .callBlock callee args params defaults body _, t =>
+      let t := trackArgs args (trackExpr callee t)
+      (trackBlock body (trackParams params defaults (t.push.assign "caller"))).pop
+    | .breakS, t => t
+    | .continueS, t => t
+  def trackBlock : List Stmt → Tracker → Tracker
+    | [], t => t
+    | s :: rest, t => trackBlock rest (trackStmt s t)
+  def trackBinds : List (Target × Expr) → Tracker → Tracker
+    | [], t => t
+    | (target, e) :: rest, t => trackBinds rest (trackAssign target (trackExpr e t))
+end
+
+/-- `find_macro_closure`: the free names of a macro (`caller` included if it is looked up) -/
+def findMacroClosure (params : List String) (defaults : List Expr) (body : List Stmt) : List String :=
+  (trackBlock body (trackParams params defaults {})).out
+
+/-- insertion sort (the engine iterates a `HashSet`: the order of the `Enclose` instructions is
+unspecified, the comparison canonicalises it) -/
+def insertSorted (x : String) : List String → List String
+  | [] => [x]
+  | y :: rest => if x ≤ y then x :: y :: rest else y :: insertSorted x rest
+def sortNames (xs : List String) : List String := xs.foldr insertSorted []
+
 /-! ## Code generation -/
 
 def binInstr : BinOp → Instr
@@ -308,6 +439,30 @@ mutual
     | [], g => g
     | t :: ts, g => cTargets ts (cTarget t g)
 end
+
+/-- `Call::identify_call` -/
+inductive CallKind where | function | method | object
+  deriving DecidableEq, Repr, Inhabited
+def callKind : Expr → CallKind
+  | .var _ => .function
+  | .getattr _ _ => .method
+  | _ => .object
+def callName : Expr → String
+  | .var x => x
+  | _ => ""
+
+def posArgs (args : List (Option String × Expr)) : List Expr :=
+  args.filterMap fun a => match a.1 with | none => some a.2 | some _ => none
+def kwArgs (args : List (Option String × Expr)) : List (String × Expr) :=
+  args.filterMap fun a => match a.1 with | none => none | some k => some (k, a.2)
+/-- keyword arguments whose values are all literal constants are collected at compile time -/
+def staticKwargs : List (String × Expr) → Option (List (String × Val))
+  | [] => some []
+  | (k, .const l) :: rest => (staticKwargs rest).map fun m =>
+      match assocGet k m with
+      | some _ => m                      -- a later duplicate overwrites an earlier one
+      | none => mapInsert k (litVal l) m
+  | _ :: _ => none
 
 mutual
   /-- `compile_expr` -/
@@ -355,9 +510,35 @@ mutual
           r.2.add (.performTest name (1 + args.length) r.1)
         | .getattr a name => (cExpr a g).add (.getAttr name)
         | .getitem a i => (cExpr i (cExpr a g)).add .getItem
-        | .call _ _ => g.markOof
+        | .call f args =>
+          -- `compile_call` + `compile_call_args` (no splats; `x.f()` method calls are outside)
+          match callKind f with
+          | .method => g.markOof
+          | kind =>
+            let extra := if kind == .function then 0 else 1
+            let g := if kind == .function then g else cExpr f g
+            let g := cPosArgs args g
+            let argc := extra + (posArgs args).length
+            let g := match kwArgs args with
+              | [] => (g, argc)
+              | kws =>
+                match staticKwargs kws with
+                | some m => (g.add (.loadConst (.kwargs m)), argc + 1)
+                | none => ((cKwArgs args g).add (.buildKwargs kws.length), argc + 1)
+            if kind == .function then g.1.add (.callFunction (callName f) g.2)
+            else g.1.add (.callObject g.2)
         | .list items => (cList items g).add (.buildList (some items.length))
         | .map kvs => (cPairs kvs g).add (.buildMap kvs.length)
+  /-- the positional arguments of a call, in order -/
+  def cPosArgs : List (Option String × Expr) → CG → CG
+    | [], g => g
+    | (none, e) :: rest, g => cPosArgs rest (cExpr e g)
+    | (some _, _) :: rest, g => cPosArgs rest g
+  /-- the keyword arguments of a call as `LoadConst key; value` pairs -/
+  def cKwArgs : List (Option String × Expr) → CG → CG
+    | [], g => g
+    | (none, _) :: rest, g => cKwArgs rest g
+    | (some k, e) :: rest, g => cKwArgs rest (cExpr e (g.add (.loadConst (.str k))))
   /-- positional arguments only -/
   def cArgs : List (Option String × Expr) → CG → CG
     | [], g => g
@@ -386,6 +567,31 @@ def cFilters : List FilterApp → CG → CG
     let g := cArgs args g
     let r := g.filterId name
     cFilters rest (r.2.add (.applyFilter name (1 + args.length) r.1))
+
+/-- parameters paired with their default (the defaults belong to the last parameters) -/
+def paramDefaults (params : List String) (defaults : List Expr) : List (String × Option Expr) :=
+  let n := params.length - defaults.length
+  (params.zipIdx).map fun (p, i) => (p, if n ≤ i then defaults[i - n]? else none)
+
+/-- the prologue of a macro: the arguments are on the operand stack, last one on top; they are
+bound back to front, an undefined one with a default gets the default -/
+def cMacroPrologue (pds : List (String × Option Expr)) (g : CG) : CG :=
+  pds.reverse.foldl (fun g pd =>
+    let g := match pd.2 with
+      | some d => (cExpr d ((((g.add .dupTop).add .isUndefined).startIf).add .discardTop)).endIf
+      | none => g
+    g.add (.storeLocal pd.1)) g
+
+/-- the epilogue of `compile_macro_expression`: closure, argument names, `BuildMacro`, and the
+jump over the body is patched -/
+def cMacroEpilogue (name : String) (params : List String) (closure : List String) (jumpInstr : Nat) (g : CG) : CG :=
+  let g := g.add .return_
+  let macroInstr := g.next
+  let g := (sortNames (closure.filter (· != "caller"))).foldl (fun g n => g.add (.enclose n)) g
+  let g := g.add .getClosure
+  let g := g.add (.loadConst (.list (params.map Val.str)))
+  let g := g.add (.buildMacro name (jumpInstr + 1) (if closure.contains "caller" then 2 else 0))
+  g.patch jumpInstr macroInstr
 
 mutual
   /-- `compile_stmt` -/
@@ -425,8 +631,29 @@ mutual
     | .filterBlock filters body, g =>
       let g := cBlock body ((g.add .beginCapture).startScope .capture)
       (cFilters filters (g.endScope.add .endCapture)).add .emit
-    | .macroS .., g => g.markOof
-    | .callBlock .., g => g.markOof
+    | .macroS name params defaults body _, g =>
+      -- `compile_macro`
+      let j := g.next
+      let g := cMacroPrologue (paramDefaults params defaults) (g.add (.jump unpatched))
+      let g := cBlock body g
+      (cMacroEpilogue name params (findMacroClosure params defaults body) j g).add (.storeLocal name)
+    | .callBlock callee args params defaults body _, g =>
+      -- `compile_call_block`: the call gets the extra keyword argument `caller=<macro>`
+      match callKind callee with
+      | .method => g.markOof
+      | kind =>
+        let extra := if kind == .function then 0 else 1
+        let g := if kind == .function then g else cExpr callee g
+        let g := cKwArgs args (cPosArgs args g)
+        let g := g.add (.loadConst (.str "caller"))
+        let j := g.next
+        let g := cMacroPrologue (paramDefaults params defaults) (g.add (.jump unpatched))
+        let g := cBlock body g
+        let g := cMacroEpilogue "caller" params (findMacroClosure params defaults body) j g
+        let g := g.add (.buildKwargs ((kwArgs args).length + 1))
+        let argc := extra + (posArgs args).length + 1
+        let g := if kind == .function then g.add (.callFunction (callName callee) argc) else g.add (.callObject argc)
+        g.add .emit
     | .continueS, g =>
       let g := g.leaveScopes
       match CG.innermostLoopIter g.pending with
